@@ -33,14 +33,9 @@ var tokenRe = regexp.MustCompile(`[^\s()]+`)
 // axioms whose symbols occur, the path condition, and the negated goal.
 func buildQuery(sp *Specs, o *Obligation, models bool) string {
 	var body strings.Builder
-	dup := map[string]bool{}
-	for _, a := range o.PC {
-		if dup[a.S] {
-			continue
-		}
-		dup[a.S] = true
+	for _, a := range renderPC(o.Groups, o.PC) {
 		body.WriteString("(assert ")
-		body.WriteString(a.S)
+		body.WriteString(a)
 		body.WriteString(")\n")
 	}
 	body.WriteString("(assert (not ")
